@@ -829,8 +829,16 @@ def run_shard(spec, ctx):
         # quick tier: the reference-cycle classes and all payload corruptions are always enumerated completely (they are
         # where unbounded work / recursion hides and each is small); the type-replacement, key-removal and truncation
         # faults are sampled with a seeded PRNG
+        import re as _re
+
+        simple = SD.write(seed("simple"))
+        # cuts inside a #xx name escape (after the # and between the two digits)
+        esc_cuts = {m.start() + k for m in _re.finditer(rb"#[0-9A-Fa-f]{2}", simple) for k in (1, 2)}
+
         def always(c):
             f = c["fault"]
+            if f["t"] == "truncate" and c["seed"] == "simple" and f["at"] in esc_cuts:
+                return True
             if f["t"] == "updates" and (f["n"] <= 1200 or c["seed"] == "simple"):
                 return True
             if f["t"] == "digits" and (c["seed"] in ("simple", "crypt-aes") or f["where"] == "startxref"):
